@@ -879,8 +879,92 @@ def replay_branch_isolation(r):
     return {"reproduced": False, "detail": "sibling paths do not share learnt substitutions"}
 
 
+# ---------------------------------------------------------------------------------------
+# the worklist protocol of SEVM.run: every state that an arm pushes (or hands on as next_ex) is taken up again
+# exactly once, and the loop only ends when nothing is pending
+
+
+def worklist_cases():
+    import ast
+    import itertools
+
+    import halmos.sevm as hs
+    from pyvc.interp import Env
+
+    out = []
+
+    def harness_bag(interp):
+        ctx = interp.ctx
+        bad = []
+        n = 0
+        for k in range(0, 7):
+            for ops in itertools.product("UO", repeat=k):  # U = push a fresh state, O = pop
+                n += 1
+                wl = hs.Worklist()
+                model, fresh, got, want = [], 0, [], []
+                for o in ops:
+                    if o == "U":
+                        tok = ("state", fresh)
+                        fresh += 1
+                        interp.call(hs.Worklist.__dict__["push"], [wl, tok], {})
+                        model.append(tok)
+                    else:
+                        got.append(interp.call(hs.Worklist.__dict__["pop"], [wl], {}))
+                        want.append(model.pop() if model else None)
+                if got != want or list(wl.stack) != model or len(wl) != len(model):
+                    bad.append("".join(ops))
+        ctx.oblige(f"Worklist is a LIFO bag: every pushed state is popped exactly once, pop on empty gives None ({n} histories of up to 6 operations)", z3.BoolVal(not bad), info={"first": str(bad[:2])})
+
+    out.append(Case(f"{PROP}/sevm.SEVM.run#worklist-protocol", "Worklist.push/pop", harness_bag, sources=("halmos.sevm:Worklist.push", "halmos.sevm:Worklist.pop")))
+
+    def harness_loop(interp):
+        ctx = interp.ctx
+        sf, fn = loader.find_unit("halmos.sevm:SEVM.run")
+        loops = [n for n in fn.body if isinstance(n, ast.While)]
+        ctx.oblige("SEVM.run has exactly one main loop, and it is the last statement (nothing is yielded after it)", z3.BoolVal(len(loops) == 1 and fn.body[-1] is loops[0]))
+        if len(loops) != 1:
+            return
+        w = loops[0]
+        # (1) the loop condition takes the state handed on by the previous iteration, else pops; ends iff nothing is pending
+        for nx, stk in ((None, []), ("N", []), (None, ["A", "B"]), ("N", ["A"])):
+            wl = hs.Worklist()
+            for x in stk:
+                wl.push(x)
+            env = Env({"next_ex": nx, "stack": wl}, None, hs.__dict__)
+            r = interp.truth(interp.eval(w.test, env))
+            took = env.lookup("ex")
+            want = nx if nx is not None else (stk[-1] if stk else None)
+            ctx.oblige(f"loop condition[next_ex={nx}, {len(stk)} stacked]: the state handed on is taken first, otherwise the most recently pushed one; the loop ends iff nothing is pending", z3.BoolVal(took == want and r == (want is not None) and list(wl.stack) == (stk if nx is not None else stk[:-1])))
+        # (2) frame: inside the loop, `next_ex` is reset at the start of every iteration and set only to the current state
+        assigns = [n for n in ast.walk(w) if isinstance(n, (ast.Assign, ast.AnnAssign)) and any(isinstance(t, ast.Name) and t.id == "next_ex" for t in (n.targets if isinstance(n, ast.Assign) else [n.target]))]
+        srcs = sorted(ast.unparse(a) for a in assigns)
+        body = w.body
+        tr = body[0] if body and isinstance(body[0], ast.Try) else None
+        first_ok = tr is not None and len(body) == 1 and isinstance(tr.body[0], ast.Assign) and ast.unparse(tr.body[0]) == "next_ex = None"
+        ctx.oblige("frame: `next_ex` is cleared first thing in every iteration and only ever set to the state just executed", z3.BoolVal(first_ok and srcs.count("next_ex = None") == 1 and set(srcs) == {"next_ex = None", "next_ex = ex"}), info={"assignments": str(srcs)})
+        # (3) the loop is left only through its condition: no break / return in its body (nested functions aside)
+        leaves = []
+
+        def scan(node):
+            for ch in ast.iter_child_nodes(node):
+                if isinstance(ch, (ast.FunctionDef, ast.Lambda)):
+                    continue
+                if isinstance(ch, (ast.Break, ast.Return)):
+                    leaves.append(type(ch).__name__)
+                scan(ch)
+
+        scan(w)
+        ctx.oblige("the loop is left only when nothing is pending: its body contains no break and no return", z3.BoolVal(not leaves and not w.orelse), info={"found": str(leaves)})
+        # (4) every handler of the main try ends the iteration with `continue` (the state is finalized, reported or dropped with a reason: C10)
+        hs_ok = tr is not None and all(isinstance(h.body[-1], ast.Continue) for h in tr.handlers) and not tr.finalbody and not tr.orelse
+        ctx.oblige("every exception handler of the main loop ends the iteration and goes on with the next pending state", z3.BoolVal(hs_ok))
+
+    out.append(Case(f"{PROP}/sevm.SEVM.run#worklist-protocol", "main loop skeleton", harness_loop, sources=("halmos.sevm:SEVM.run",)))
+    return out
+
+
 def build_cases(tier="quick"):
-    return jumpi_cases() + check_cases() + select_cases() + calldataload_cases() + funds_cases() + alias_cases() + symbolic_jump_cases() + path_cases()
+    return jumpi_cases() + check_cases() + select_cases() + calldataload_cases() + funds_cases() + alias_cases() + symbolic_jump_cases() + path_cases() + worklist_cases()
 
 
 ASSUMPTIONS = [
